@@ -74,6 +74,7 @@ def _mk_bisect(orig):
             return fn(x)
 
         nested = _DEPTH[0] > 0
+        stamps = [(nm, z, z._version, z.detach().clone()) for nm, z in (("lower", lower), ("upper", upper), ("target", target)) if isinstance(z, torch.Tensor)]
         _DEPTH[0] += 1
         try:
             out = orig(counted, target, lower, upper, precision=precision, max_iter=max_iter)
@@ -82,6 +83,14 @@ def _mk_bisect(orig):
             out, err = None, ex
         finally:
             _DEPTH[0] -= 1
+        for nm, z, ver, val in stamps:
+            if z._version != ver or not torch.equal(z.detach(), val):
+                ctx.seen("bisect.args_untouched")
+                ctx.violation("bisect.args_untouched", "bisect.argument_mutated", f"bisect modified its '{nm}' tensor argument in place", sig=(nm,))
+                break
+        else:
+            if stamps:
+                ctx.ok("bisect.args_untouched", sig=("ok",))
         mon = "bisect.post"
         ctx.seen(mon)
         _LAST["n_eval"] = count[0]
